@@ -91,6 +91,37 @@ pub fn gen_case(prop: &str, seed: u64, tier: &str, run: u64) -> Case {
             workload.cfg.async_mode = false;
             return Case { property: prop.to_string(), workload, noise: None, mode };
         }
+        "C03" if rng.chance(1, 30) => {
+            // "a multi-key range removal is one operation" also when its record is huge: three byte-string
+            // keys of which one or two are very long (> 1 MiB / 400 KiB), all put, then one range removal
+            // over all of them, killed at every boundary (seeded change C03-e: a removal split into
+            // records of at most 1 MiB each)
+            p = crash_profile(thorough);
+            let mut keys: Vec<Vec<u8>> = vec![vec![1 + rng.below(5) as u8], vec![0x40, rng.below(256) as u8], vec![0xfe; 1_048_576 + rng.below(3000) as usize]];
+            if rng.chance(1, 2) {
+                keys[1] = vec![0x40; 400_000 + rng.below(1000) as usize];
+                keys.push(vec![0xff; 700_000 + rng.below(1000) as usize]);
+            }
+            keys.sort();
+            let nk = keys.len();
+            let cfg = gen::gen_cfg(&mut rng, &p);
+            let contents = vec![ContentSpec { stream: 1, size: 5 }, ContentSpec { stream: 2, size: 44 }];
+            let mut ops = Vec::new();
+            for k in 0..nk {
+                let c = rng.below(2) as usize;
+                ops.push(Op::Put { k, c, chunks: vec![contents[c].size], abort: false });
+            }
+            if rng.chance(1, 3) {
+                ops.push(Op::Checkpoint);
+            }
+            ops.push(Op::RemoveRange { lo: gen::B::U, hi: if rng.chance(1, 2) { gen::B::U } else { gen::B::I(nk - 1) } });
+            if rng.chance(1, 2) {
+                ops.push(Op::Put { k: 0, c: 1, chunks: vec![contents[1].size], abort: false });
+            }
+            let workload = Workload { key_type: KeyType::Bytes, keys_hex: keys.iter().map(hex::encode).collect(), content_seed: rng.next(), contents, cfg, ops };
+            mode = Mode::Crash { cuts: CutSel::All { max: 150, sseed: rng.next() }, depth: 1, suffix_every: 0, verify: false };
+            return Case { property: prop.to_string(), workload, noise: None, mode };
+        }
         "C03" if rng.chance(1, 12) => {
             // a history long enough for the segment id to gain a digit (9 -> 10): puts only on few
             // keys so that every operation is one version; the crash cuts concentrate on the last
